@@ -133,6 +133,16 @@ func C10(r *core.Run) {
 		}
 		conc = append(conc, c)
 	}
+	// histories served by a real net/http server through a real httputil.ReverseProxy to a real
+	// backend (plain, streamed, websocket handshakes answered 101 or declined)
+	nServed := r.Pick(24, 600)
+	for i := 0; i < nServed; i++ {
+		seq = append(seq, c10Case{
+			ID: fmt.Sprintf("s%d-served-%d", r.Seed, i), Kind: "served", Seed: rng.Int63(),
+			Sessions: 1 + i%3, Steps: 10 + rng.Intn(9), DisableSSL: i%2 == 1,
+			CookieName: names[(i/2)%len(names)], LifetimeS: lifetimes[i%len(lifetimes)], Sample: i == 0,
+		})
+	}
 	all := append(append([]c10Case{}, seq...), conc...)
 	if r.OnlyCase >= 0 && r.OnlyCase < len(all) {
 		one := all[r.OnlyCase]
@@ -259,6 +269,8 @@ func C10(r *core.Run) {
 			}
 		case "evict":
 			r.Add("eviction_histories", 1)
+		case "served":
+			r.Add("histories_served_by_a_real_server_and_reverse_proxy", 1)
 		default:
 			r.Add("sequential_histories", 1)
 		}
